@@ -109,6 +109,17 @@ Definition chk_search (x l : list Qc) (r : list (obs (list Z))) : bool :=
                     qs_.append(rng.uniform(x[0] - 1, x[-1] + 1))
             qs_ = [v for v in qs_ if not near_tie(x, v)] or [x[0]]
             cases.append({"x": x, "lookup": sorted(qs_), "kind": "float"})
+        # single-precision samples with double-precision queries (a float32 sensor column searched with Python floats): a query one
+        # double-ulp off a sample is not that sample, whatever precision the samples are stored in
+        for _ in range(40 if tier == "quick" else 400):
+            n = rng.randint(2, 10)
+            x = sorted({float(np.float32(rng.choice([rng.uniform(-10, 10), rng.randint(-20, 20) * 0.1]))) for _ in range(n)})
+            qs_ = []
+            for _ in range(rng.randint(2, 8)):
+                e = rng.choice(x)
+                qs_.append(rng.choice([e, math.nextafter(e, math.inf), math.nextafter(e, -math.inf), e + 1e-9, e - 1e-9]))
+            qs_ = [v for v in qs_ if not near_tie(x, v)] or [x[0]]
+            cases.append({"x": x, "lookup": sorted(qs_), "kind": "float", "x_f32": True})
         # degenerate calls: empty lookup / empty x (StopIteration in the implementation)
         cases.append({"x": [1.0, 2.0], "lookup": [], "kind": "empty"})
         cases.append({"x": [], "lookup": [1.0], "kind": "empty"})
@@ -117,7 +128,7 @@ Definition chk_search (x l : list Qc) (r : list (obs (list Z))) : bool :=
 
     def run(self, case):
         import traffic_weaver.sorted_array_utils as sau
-        x = np.array(case["x"], dtype=float)
+        x = np.array(case["x"], dtype=np.float32 if case.get("x_f32") else float)     # (x_f32: the elements are exactly representable)
         l = np.array(case["lookup"], dtype=float)
         out = []
         if case["kind"] == "unknown-strategy":
@@ -136,6 +147,8 @@ Definition chk_search (x l : list Qc) (r : list (obs (list Z))) : bool :=
         # so a call that rearranged them would also have changed the later answers)
         res = {"res": out, "input_mutated": not (np.array_equal(x, np.array(case["x"], dtype=float)) and np.array_equal(l, np.array(case["lookup"], dtype=float)))}
         # ... and each call answers for the array as it is NOW: the caller shifts the very same array object in place and asks again
+        if case.get("x_f32"):
+            return res
         x += 2.0
         again = []
         for s, fill in (("lower", True), ("higher", False), ("closest", True)):
